@@ -114,6 +114,21 @@ def gen_case(rng):
             # frames nobody registered for are interleaved: they must fall through, not disturb the get
             pos = rng.randint(0, len(frames))
             frames.insert(pos, spec.Basic.Cancel(consumer_tag='nobody'))
+    if kind in ('message', 'empty') and rng.random() < 0.25:
+        # an earlier mandatory publish comes back while the get is pending: Basic.Return + its header and body
+        # arrive before the get's reply; they are neither the reply nor a delivery
+        rn = rng.choice([0, 3, 50])
+        rbody = wire.rand_bytes(rng, rn)
+        ret = [spec.Basic.Return(reply_code=312, reply_text='NO_ROUTE', exchange='', routing_key='nowhere'),
+               pheader.ContentHeader(body_size=rn, properties=spec.Basic.Properties(message_id='returned'))]
+        i = 0
+        while i < rn:
+            k = rng.randint(1, rn - i)
+            ret.append(pbody.ContentBody(rbody[i:i + k]))
+            i += k
+        frames = ret + frames
+        kind = 'returned-first'
+        exp = exp + (len(ret),)
     return frames, ending, kind, exp
 
 
@@ -179,6 +194,81 @@ def seq_guard_history(rep, rng):
         arpc.time = saved
     rep.case(('seq-guard-history', k, tuple(hist)), k >= 2, sample=replay)
     rep.count('seq_kind', 'guard-history')
+
+
+class HookedDict(dict):
+    """dict that lets 'the reader thread' run right after an entry is deleted"""
+    after_delete = None
+
+    def __delitem__(self, key):
+        dict.__delitem__(self, key)
+        if self.after_delete:
+            self.after_delete()
+
+
+def seq_late_frame_during_cleanup(rep, rng, params=None):
+    """a get times out at one of its stages and the missing frame arrives while the caller is discarding its reply
+    bookkeeping - after each single deletion in the two tables the reader hands the channel one late frame.  Whatever
+    the point, the reader must not fail (an exception there kills the connection's reader thread), the get ends in its
+    time-out, the tables end empty and the next call works."""
+    import amqpstorm
+    import amqpstorm.rpc as arpc
+    import types
+    from amqpstorm.exception import AMQPChannelError
+    stage = rng.randint(0, 2) if params is None else params['stage']
+    body = wire.rand_bytes(rng, rng.choice([1, 5, 40]) if params is None else params['body'])
+    full = [spec.Basic.GetOk(delivery_tag=7, redelivered=False, exchange='', routing_key='rk', message_count=0),
+            pheader.ContentHeader(body_size=len(body), properties=spec.Basic.Properties()), pbody.ContentBody(body)]
+    sc = SeqChannel(rpc_timeout=2)
+    sc.arrivals = full[:stage]
+    sc.ending = 'silence'
+    late = list(full[stage:]) * 3
+    at = rng.randint(0, 5) if params is None else params['at']                # which deletion lets the late frame in
+    state = {'n': 0, 'reader_exc': None}
+    req, resp = HookedDict(), HookedDict()
+
+    def after_delete():
+        state['n'] += 1
+        if state['n'] > at and late and state['reader_exc'] is None:
+            fr = late.pop(0)
+            try:
+                sc.ch.on_frame(fr)
+            except Exception as why:   # noqa
+                state['reader_exc'] = '%s while handling a late %s' % (repr(why)[:60], fr.name)
+    req.after_delete = resp.after_delete = after_delete
+    sc.ch.rpc._request, sc.ch.rpc._response = req, resp
+    replay = {'kind': 'seq-late-frame-during-cleanup', 'stage': stage, 'at': at, 'body': len(body)}
+    saved = arpc.time
+    arpc.time = types.SimpleNamespace(time=lambda: sc.now, sleep=sc.sleep)
+    try:
+        try:
+            sc.ch.basic.get('q')
+            res = 'returned'
+        except AMQPChannelError as why:
+            res = 'timeout' if 'took too long' in str(why) else 'channel-error'
+        except Exception as why:   # noqa
+            res = 'other:%s' % type(why).__name__
+        if state['reader_exc']:
+            rep.violation('C15/reader-fails-on-late-frame', 'get timed out waiting for reply frame #%d; %s (deletion #%d of the clean-up)' % (
+                stage, state['reader_exc'], state['n']), replay)
+        elif res != 'timeout':
+            rep.violation('C15/outcome', 'get without a complete reply ended as %s' % res, replay)
+        req.after_delete = resp.after_delete = None
+        if len(req) or len(resp):
+            rep.violation('C15/residue', 'after the timed-out get: %d request / %d response entries left' % (len(req), len(resp)), replay)
+        sc.ch._inbound.clear()
+        sc.arrivals = []
+        sc.ended = True
+        try:
+            r = sc.ch.queue.declare('follow-up')
+            if r.get('queue') != 'follow-up':
+                rep.violation('C15/next-call', 'follow-up declare returned %r' % (r,), replay)
+        except Exception as why:   # noqa
+            rep.violation('C15/next-call', 'follow-up declare raised %r' % (why,), replay)
+    finally:
+        arpc.time = saved
+    rep.case(('seq-late-frame-during-cleanup', stage, at, len(body)), True, sample=replay)
+    rep.count('seq_kind', 'late-frame-during-cleanup')
 
 
 def seq_pending_error(rep, rng):
@@ -258,6 +348,8 @@ def seq_case(rep, rng, lines, expect):
                 res = 'none'
             else:
                 res = 'message meta=%08x size=%d body=%s' % (m.method['delivery_tag'], len(m._body), show_slice(m._body))
+        except amqpstorm.AMQPMessageError as why:
+            res = 'raised returned-message'
         except AMQPChannelError as why:
             res = 'raised ' + ('consumers-active' if 'set to consume' in str(why) else
                                'timeout' if 'took too long' in str(why) else 'channel-error')
@@ -274,6 +366,17 @@ def seq_case(rep, rng, lines, expect):
         if tags:
             if res != 'raised consumers-active' or wrote:
                 rep.violation('C15/guard', 'get on a consuming channel: %s, wrote=%s' % (res, wrote), replay)
+        elif kind == 'returned-first':
+            # the returned message is reported as a message error, either by this call (if the reply had not arrived yet
+            # when the wait loop looked) or by the next one; it is never taken for the reply
+            want = 'none' if exp[0] == 'none' else 'message meta=%08x size=%d body=%s' % (exp[1], len(exp[3]), show_slice(exp[3]))
+            pend = [e for e in sc.ch.exceptions if isinstance(e, amqpstorm.AMQPMessageError)]
+            if res not in (want, 'raised returned-message') or (res == want) != (len(pend) == 1) or sc.ch._inbound and res == want:
+                rep.violation('C15/returned-message-taken-for-reply', 'Basic.Return + content arrived before the get reply: get gave %s, '
+                              'expected %s or the returned-message error; %d message error(s) pending, %d frames left inbound' % (
+                                  res[:80], want[:80], len(pend), len(sc.ch._inbound)), replay)
+            del sc.ch.exceptions[:]
+            sc.ch._inbound.clear()
         elif exp[0] == 'none' and res != 'none':
             rep.violation('C15/empty', 'GetEmpty but get returned %s' % res, replay)
         elif exp[0] == 'message':
@@ -305,6 +408,8 @@ def seq_case(rep, rng, lines, expect):
              sample={'frames': [f.name for f in frames], 'ending': ending, 'eager': sc.eager, 'result': res[:60]})
     rep.count('seq_kind', kind)
     rep.count('seq_result', res.split(' meta')[0])
+    if kind == 'returned-first':
+        return                      # monitor only: the model's get has no returned-message path (that is C05's model)
     lines.append('c15.get %s %s %s' % (','.join(tags) if tags else '-', render(frames), ending))
     fell = sum(1 for f in frames if f.name == 'Basic.Cancel')
     expect.append((res, req, resp, wrote))
@@ -399,6 +504,8 @@ def check(rep):
             seq_pending_error(rep, rng)
         if rng.random() < 0.05:
             seq_guard_history(rep, rng)
+        if rng.random() < 0.04:
+            seq_late_frame_during_cleanup(rep, rng)
     jobs = []
     for _ in range(60 if not thorough else 1200):
         then = rng.choice([None, None, 'silence', 'close', 'die'])
@@ -441,6 +548,11 @@ def replay(data):
         out = cosim_one((r['scenario'], r['seed']))
         print(out)
         bad = bool(out['problems'])
+    elif r['kind'] == 'seq-late-frame-during-cleanup':
+        seq_late_frame_during_cleanup(rep, random.Random(0), params=r)
+        for v in rep.violations:
+            print(v)
+        bad = bool(rep.violations)
     else:
         print('sequential case: re-run the check with the same VERIF_SEED to reproduce: %r' % (r,))
         bad = True
